@@ -109,6 +109,16 @@ func (r *mgrRig) start(types []datatransfer.TypeIdentifier) {
 		if !r.pub.waitCount(chid, 1, watchdog) {
 			r.t.Fatalf("HARNESS fence channel Open not delivered")
 		}
+		if len(r.opts) > 0 {
+			// a channel monitor may be configured with an accept timeout: the fence channel is
+			// accepted at once so that the monitor leaves it alone
+			resp, _ := message.NewResponse(chid.ID, true, false, nil)
+			_ = mgr.(datatransfer.EventsHandler).OnResponseReceived(chid, resp)
+			_, _ = r.flush(chid)
+			if !r.pub.waitCount(chid, 2, watchdog) {
+				r.t.Fatalf("HARNESS fence channel Accept not delivered")
+			}
+		}
 	}
 }
 
@@ -193,6 +203,24 @@ func (r *mgrRig) settle(chid datatransfer.ChannelID) (datatransfer.ChannelState,
 }
 
 // vec reads the current vector of a channel (after flushing).
+// settleTerminal polls until the channel is in a terminal status (or the watchdog expires).
+func (r *mgrRig) settleTerminal(chid datatransfer.ChannelID) (datatransfer.ChannelState, bool) {
+	deadline := time.Now().Add(watchdog)
+	for {
+		st, err := r.flush(chid)
+		if err != nil {
+			return nil, false
+		}
+		if channels.IsChannelTerminated(st.Status()) {
+			return st, true
+		}
+		if time.Now().After(deadline) {
+			return st, false
+		}
+		time.Sleep(200 * time.Microsecond)
+	}
+}
+
 func (r *mgrRig) vec(chid datatransfer.ChannelID) (Vec, error) {
 	st, err := r.flush(chid)
 	if err != nil {
